@@ -164,7 +164,14 @@ def run(r, n):
         if m.endswith("res=err unmodelled"):
             classes["unmodelled (skipped)"] = classes.get("unmodelled (skipped)", 0) + 1
             continue
-        a = real_build(*c)
+        try:
+            a = real_build(*c)
+        except Exception as e:  # noqa — the private construction routine this correspondence drives no longer has the shape the model
+            # was written against (a refactoring may be harmless): the tie is broken, the property is decided by the search
+            diffs.append({"suite": "factory-build", "conditions": repr(c[0])[:300], "actions": repr(c[1])[:300], "matchtype": c[2], "loaded": c[3], "requires": c[4],
+                          "impl": "the construction routine FiltersSet.__create_filter cannot be driven as modelled: %s: %s" % (type(e).__name__, str(e)[:200]),
+                          "model": m[:500]})
+            break
         cls = a.split(" res=")[1].split(" ")[0:2]
         key = " ".join(cls[:2]) if cls[0] == "err" else "ok"
         classes[key] = classes.get(key, 0) + 1
